@@ -78,6 +78,7 @@ func runC04(c *Ctx, tier string) {
 	c.borrow(func(t *Ctx) { runC01(t, "quick") }, map[string]string{"C01-O7": "C04-O7"})
 	runC04P1(c)
 	runC04F1(c)
+	runFilterInstancesArePrivate(c, "C04-F3")
 	c.borrow(func(t *Ctx) { runC05Rest(t) }, map[string]string{"C05-W1": "C04-W1"})
 	c.Rule("C04-W3", "an operator that releases a pulled batch keeps none of its values without a copy")
 	batchValuesRetention(c, "C04-W3", opPkgs(c.P)...)
